@@ -61,3 +61,22 @@ def case_of(q, idx):
     sec = bytes([1]) + bytes(7) + struct.pack("<QQQ", 32 + len(body), log2phys(lstart + 32), 0) + bytes(body)
     name = "q%d:w%s:n%d:%s" % (idx, "-".join(map(str, w)), n, "".join({"data": "D", "index": "I", "ignored": "G"}[p["t"]] + ("(" + ",".join(map(str, p["sizes"])) + ")" if p["t"] == "data" else "") for p in packets))
     return {"name": name, "lstart": lstart, "sec": list(sec), "proto": list(recs), "pts": pts, "layout": packets}
+
+
+def cost_case(w, per_packet, npackets, last, name, lstart=48):
+    """A section for the cost model (QueueCostSpec): `npackets` data packets which each carry per_packet[i] bytes in stream i
+    -- also for zero-width records, whose streams are empty in every well-formed file -- followed by one packet with last[i]
+    bytes that completes the only point.  The reader's next() has to advance through all of them in ONE call."""
+    recs, mins = zip(*[record(i, wi) for i, wi in enumerate(w)])
+    body = bytearray()
+    def data(sizes, fill):
+        sl = [bytes([fill]) * sizes[i] for i in range(len(w))]
+        b = b"".join(struct.pack("<H", len(x)) for x in sl) + b"".join(sl)
+        ln = 6 + len(b); pad = (4 - ln % 4) % 4
+        return bytes([1, 0]) + struct.pack("<HH", ln + pad - 1, len(w)) + b + b"\0" * pad
+    for _ in range(npackets):
+        body += data(per_packet, 0)
+    body += data(last, 0)
+    sec = bytes([1]) + bytes(7) + struct.pack("<QQQ", 32 + len(body), log2phys(lstart + 32), 0) + bytes(body)
+    pts = [[[3] + limbs(mins[i]) for i in range(len(w))]]
+    return {"name": name, "lstart": lstart, "sec": list(sec), "proto": list(recs), "pts": pts, "layout": []}
